@@ -178,6 +178,10 @@ type c13Op struct {
 	Mod    string `json:"mod,omitempty"`
 	Sub    string `json:"sub,omitempty"`
 	Name   string `json:"name,omitempty"`
+	// Pre: before a realm write of a string, the system realm creates the very
+	// record the write addresses (same length, other content), so that the
+	// write is a same-size overwrite.
+	Pre bool `json:"pre,omitempty"`
 }
 
 type c13Case struct {
@@ -277,7 +281,9 @@ func c13DrawOp(rt *rapid.T) c13Op {
 	switch k := rapid.IntRange(0, 11).Draw(rt, "opkind"); {
 	case k <= 5:
 		s := rapid.SampledFrom(c13Setters).Draw(rt, "setter")
-		return c13Op{Kind: "realm", Ctx: rapid.SampledFrom(c13Ctxs).Draw(rt, "ctx"), Setter: s, Key: c13DrawKey(rt), Val: c13DrawVal(rt, s)}
+		op := c13Op{Kind: "realm", Ctx: rapid.SampledFrom(c13Ctxs).Draw(rt, "ctx"), Setter: s, Key: c13DrawKey(rt), Val: c13DrawVal(rt, s)}
+		op.Pre = s == "string" && op.Ctx != "callback" && rapid.IntRange(0, 2).Draw(rt, "pre") == 0
+		return op
 	case k == 6:
 		s := rapid.SampledFrom(c13Setters).Draw(rt, "setter")
 		return c13Op{Kind: "run", Ctx: rapid.SampledFrom([]string{"main", "cross"}).Draw(rt, "ctx"), Setter: s, Key: c13DrawKey(rt), Val: c13DrawVal(rt, s)}
@@ -466,7 +472,28 @@ func c13Exec(ctx *vk.Ctx, c c13Case) error {
 	user := e.keys[1]
 	runRealm := "gno.land/e/" + user.Addr.String() + "/run"
 	nt := false
-	for i, op := range c.Ops {
+	var steps []c13Op
+	for _, op := range c.Ops {
+		if op.Pre && op.Kind == "realm" && op.Setter == "string" && op.Ctx != "callback" && op.Val != "" {
+			rlm := c13PathA
+			if op.Ctx == "crossb" {
+				rlm = c13PathB
+			}
+			sub, name := rlm, op.Key
+			if j := strings.LastIndex(op.Key, ":"); j >= 0 {
+				sub, name = rlm+":"+op.Key[:j], op.Key[j+1:]
+			}
+			alt := []byte(op.Val)
+			if alt[0] == 'z' {
+				alt[0] = 'y'
+			} else {
+				alt[0] = 'z'
+			}
+			steps = append(steps, c13Op{Kind: "sys", Via: "sysrealm", Setter: "string", Mod: "vm", Sub: sub, Name: name, Val: string(alt)})
+		}
+		steps = append(steps, op)
+	}
+	for i, op := range steps {
 		var msg std.Msg
 		var allowed []string // realms whose namespace this tx may touch
 		exactRealm := ""     // when the current realm at the setter call is determined by construction
